@@ -29,7 +29,7 @@ TRICKY = ["201x", "19a9", "1q2", "qwe", "#1x", "#12", "No.", "i<3", "2019", "199
 HOSTILE = [" ", "　", " ", " ", "\u0085", "\u001c", "\u001d", "\u001e", "\u001f", "\u000b", "\u000c",
            "\u007f", "﻿", "​", " ", " "]
 
-ENCODINGS = ["utf-8", "utf-8", "utf-8", "iso-8859-1", "cp1252", "cp1251", "koi8-r", "ascii"]
+ENCODINGS = ["utf-8", "utf-8", "utf-8", "iso-8859-1", "cp1252", "cp1251", "koi8-r", "ascii", "utf-8-sig"]
 
 
 def representable(s, enc):
